@@ -61,6 +61,7 @@ func mailbox.(*DirHandler).ProcessInbound(h, msgs) (err)
   call mailbox.writeFileAtomic set gStored := true
   call mailbox.writeFileAtomic set gStoreErr := $r0
   ensures error-propagates: gStoreErr != nil ==> err != nil
+  loop 0 invariant no-error-yet: gStoreErr == nil
 
 ghost var gStored bool
 ghost var gStoreErr error
